@@ -106,14 +106,7 @@ def ops : List (String × Handler) := [
         let q ← BF.new qw qv
         pure { h with pduType := t, segMeta := m,
                       conf := { h.conf with seqNum := q, transMode := mode, fileFlag := large, crcFlag := crc,
-                                            direction := dir, segCtrl := seg } })))),
-  ("hdr_eq", fun j => do
-      let a ← getHdr (← field j "a")
-      let b ← getHdr (← field j "b")
-      pure (res (fun (e : Bool) => obj [("eq", jb e)]) (do
-        let a ← a
-        let b ← b
-        pure (a.beq b))))
+                                            direction := dir, segCtrl := seg } }))))
 ]
 
 end SpVerif.Ops.CfdpHeader
